@@ -142,6 +142,18 @@ CLAIMED = {
         "matching and child/shared options are not yet modelled. Hash-seed independence is decided by the conformance step, not TLC.",
    technique="TLA+ model checking over histories + TLC trace validation of histories executed on real Contexts",
    design="4/C02"),
+ "C03": dict(
+   text="spec/StreamCases.tla enumerates contiguous chunk streams (every chunking of every small row set); each is written through the "
+        "real FileSytemBackend saver (Saver.save_from, real Rechunker with target sizes from one row upward or no rechunking, serial "
+        "or thread-pool writes) for three structured dtypes and all four compressors and read back through the real loader; TLC "
+        "judges every recorded round trip against spec/StorageRT.tla: identical rows in order, contiguity, same overall range, "
+        "boundaries equal (no rechunk) or written boundaries / row-free gaps (rechunk), and metadata consistency (per-chunk n, "
+        "nbytes, start/end, first/last times, run id, file present iff n>0, overall start/end, completion marker). An exception on "
+        "a valid stream is a violation.",
+   note="Bit-identity of rows (random payload bytes) is decided by the harness, everything else by TLC. Scope: <=3 rows, <=3 chunks, "
+        "grid 0..8; quick tier samples the stream x setting matrix (seeded) and runs the full matrix on a subset.",
+   technique="TLA+-enumerated inputs + TLC trace validation of recorded save/load round trips against a nondeterministic P-level",
+   design="4/C03"),
 }
 NOT_BUILT = "decision procedure (TLA+ module + binding) not built yet in this session; see DESIGN.md section 4 for the plan"
 
